@@ -33,14 +33,14 @@ Proof. intros A. exact (@nearest A). Qed.
     [Input._convert_and_check] of a nearest publication, or refuses as above, leaving the
     history untouched. *)
 Theorem C08_link_pull :
-  forall (g : gridspec) (ui : uspec) (s : lstate) (k : nat) (t : Z),
+  forall (g : gridspec) (tr : option relay) (ui : uspec) (s : lstate) (k : nat) (t : Z),
     increasing (st_hist s) ->
     match st_hist s with
-    | [] => lpull g ui s k t = (s, RNoData)
+    | [] => lpull g tr ui s k t = (s, RNoData)
     | (t0, _) :: r =>
-        ((t < t0)%Z \/ (last_time t0 r < t)%Z -> lpull g ui s k t = (s, RTime))
+        ((t < t0)%Z \/ (last_time t0 r < t)%Z -> lpull g tr ui s k t = (s, RTime))
         /\ ((t0 <= t <= last_time t0 r)%Z ->
-            exists tp e, In (tp, e) (st_hist s) /\ snd (lpull g ui s k t) = deliver g ui e
+            exists tp e, In (tp, e) (st_hist s) /\ snd (lpull g tr ui s k t) = deliver g ui (relaid tr e)
               /\ forall x, In x (st_hist s) -> (Z.abs (tp - t) <= Z.abs (fst x - t))%Z)
     end.
 Proof. exact link_pull_nearest. Qed.
@@ -155,7 +155,7 @@ Theorem C08_sharing :
        lpush inf s t p = (s, Some EData))
     /\ ((forall e0, last_entry (st_hist s) = Some e0 -> shares (e_buf e0) (e_buf e) = false) ->
         lpush inf s t p = (push s t e, None) /\ last_entry (st_hist (push s t e)) = Some e)
-    /\ (forall g u k t', last_entry (st_hist (fst (lpull g u s k t'))) = last_entry (st_hist s))
+    /\ (forall g tr u k t', last_entry (st_hist (fst (lpull g tr u s k t'))) = last_entry (st_hist s))
     /\ e_buf e = match p_units p with
                  | Some u => if equivalent u (i_units inf) then p_buf p else None
                  | None => p_buf p
@@ -173,7 +173,7 @@ Proof. exact shares_self. Qed.
 Example C08_sharing_nonvacuous :
   let inf := mkI (GNo [None]) ex_m MFlex in
   let pl b u := mkP (mkA [2]%nat [1; 2]%Q None) u b in
-  lrun (mkC inf [ex_m]) (linit (mkC inf [ex_m]))
+  lrun (mkC inf [mkCo ex_m None]) (linit (mkC inf [mkCo ex_m None]))
     [LPush 0 (pl (Some (0%nat, 0, 16)%Z) None);     (* a *)
      LPush 1 (pl (Some (0%nat, 0, 16)%Z) None);     (* a again: refused *)
      LPush 2 (pl (Some (0%nat, 8, 24)%Z) None);     (* overlapping view: refused *)
